@@ -7,7 +7,7 @@
    ok fuel st iz h : at every crossing the branching ratios are >= 0 and sum to one and
                    every target is spawned spawn_size times. *)
 From Coq Require Import Reals List Lra Lia.
-From MV Require Import Ops RInst Vec SpawnStack SpawnStackP.
+From MV Require Import Ops RInst Vec Cplx Mat Hop Propagate Cumulative SpawnStack SpawnStackP Traj TrajESP.
 Import ListNotations.
 Open Scope R_scope.
 
@@ -59,3 +59,33 @@ Proof.
     repeat constructor; cbn; auto.
   - cbn. repeat split; try lra; repeat constructor; cbn; try lra; auto.
 Qed.
+
+(* ---- the assembled even-sampling pass (Model/Traj.step_es: the loop body of simulate() with EvenSamplingTrajectory.hopper /
+   hop_to_it and a non-empty stack; tied to whole passes of real runs by Run/RTraj.chkES) ---- *)
+
+(* the parent is left unchanged by spawning: it never hops, takes the Verlet pass and the exponential step, keeps its stack
+   and base weight, and its threshold index never moves back *)
+Theorem C10_full_step_parent_unchanged :
+  forall n m dt (e0 e1 : elec (T:=R)) lam Cm (s s' : estate (T:=R)) kids G,
+  step_es ROps n m dt e0 e1 lam Cm s = (s', kids, G) ->
+  let b := eb s in
+  let f0 := nth (pact b) (eforce e0) [] in let f1 := nth (pact b) (eforce e1) [] in
+  pact (eb s') = pact b /\ ptime (eb s') = ptime b + dt
+  /\ px (eb s') = advance_position ROps m (px b) (pv b) f0 dt
+  /\ pv (eb s') = advance_velocity ROps m (pv b) f0 f1 dt
+  /\ prho (eb s') = exp_step ROps n lam Cm dt (prho b)
+  /\ est s' = est s /\ ebase s' = ebase s /\ (eiz s <= eiz s')%nat.
+Proof. exact step_es_parent. Qed.
+Print Assumptions C10_full_step_parent_unchanged.
+
+(* one pass conserves the statistical weight, whatever the electronics, for any well-formed stack, any number of thresholds
+   crossed in the pass, any number of states and any spawn_size: the base weights of the children spawned in the pass plus
+   the weight the parent keeps equal the weight the parent held (children need a non-zero total rate) *)
+Theorem C10_full_step_weight_conserved :
+  forall n m dt (e0 e1 : elec (T:=R)) lam Cm (s s' : estate (T:=R)) kids G d,
+  step_es ROps n m dt e0 e1 lam Cm s = (s', kids, G) ->
+  wf_stack (S d) (est s) -> (eiz s <= length (est s))%nat ->
+  (eiz s' <> eiz s -> G <> 0) ->
+  vsum ROps (map (fun k => ebase k) kids) + es_weight ROps s' = es_weight ROps s.
+Proof. exact step_es_weight_conserved. Qed.
+Print Assumptions C10_full_step_weight_conserved.
